@@ -201,8 +201,12 @@ def part_registry(ctx, n, singleton=False):
             if rng.random() < 0.55:
                 # explicit names, biased to collide with future generic generations
                 cnt = reg._counter[sp][sn]
-                num = rng.choice(["", "", "1", "2", str(cnt), str(cnt + 1), str(cnt + rng.randint(0, 3)), "12"])
+                num = rng.choice(["", "", "1", "2", str(cnt - 1), str(cnt), str(cnt + 1), str(cnt + rng.randint(0, 3)), "12"])
                 name = rng.choice(base) + num
+                pool_now = reg._generic_indices[sp][sn]
+                if pool_now and rng.random() < 0.3:
+                    # a name that has been generated but not handed out yet
+                    name = rng.choice(pool_now)
                 res = reg.get_indices([name], [sn])
                 objs = res[(sp, sn)]
                 key = (sp, sn, name)
